@@ -119,6 +119,7 @@ func layoutString(l []layoutItem) string {
 
 func runC16(c *Ctx) {
 	w := c.W
+	c16Extras3(c)
 	for _, pkg := range []string{"z/ct", "z/x509/ct"} {
 		if w.Pkg(pkg) == nil {
 			c.Undecided("R-LAYOUT", pkg, "package", "-", "not loaded")
